@@ -15,7 +15,7 @@ def _reg(mod):
 
 
 _reg(rules_k)
-for _m in ("rules_t", "rules_d", "rules_m", "rules_s", "rules_p", "rules_a", "rules_a1", "rules_o", "rules_e"):
+for _m in ("rules_t", "rules_d", "rules_m", "rules_s", "rules_p", "rules_a", "rules_a1", "rules_o", "rules_e", "rules_x"):
     try:
         _mod = __import__(f"gbsa.{_m}", fromlist=["*"])
     except ImportError:
@@ -32,7 +32,7 @@ TRUST_COMMON = [
 # not_decided (clauses of the property out of reach of this family), technique.
 _ALL = {
     "C01": dict(
-        want=["T1", "T3", "D1", "D2", "D6", "D6b", "M1", "M2", "P2", "P3", "K1@reduce", "K4@reduce", "K2"],
+        want=["T1", "T3", "D1", "D2", "D6", "D6b", "M1", "M2", "P2", "P3", "K1@reduce", "K4@reduce", "K2", "M6"],
         explanation=("Static analysis of /repo's source. Decides: every row reducer (ScalarFuncs) normalised to a decision "
                      "table over NULL/NZ/ORD atoms equals the hand-written specification of the operation it is dispatched as "
                      "(size, count, sum, mean=sum/count, min, max, first, last); op->kernel->reducer dispatch by constant "
@@ -44,7 +44,7 @@ _ALL = {
         technique="GCNF decision tables vs spec tables; constant-propagated dispatch; fact-walker dominance; path rules",
     ),
     "C02": dict(
-        want=["K1@factorize", "K2", "K6@factorize", "F1", "P7"],
+        want=["K1@factorize", "K2", "K6@factorize", "F1", "P7", "K4b", "P7b"],
         explanation=("Decides the structural part of faithful factorization: the null code -1 is produced for a null in ANY key "
                      "position and preserved by every code re-mapping (K2); every factorization route tests the key for null "
                      "before an ordering comparison decides its code or delegates to a library call documented to emit the "
@@ -56,7 +56,7 @@ _ALL = {
         technique="null-code preservation (taint + idiom table), fact-walker dominance, route table",
     ),
     "C03": dict(
-        want=["M1", "M2", "M3", "M4", "M5", "D2", "D6b", "D9", "S2", "K2"],
+        want=["M1", "M2", "M3", "M4", "M5", "D2", "D6b", "D9", "S2", "K2", "M6", "P7b"],
         explanation=("Decides the structural causes of strategy dependence: every merge of partial results receives the "
                      "accumulated count (M1) which is updated after the merge (M2); parallel_map places results by submission "
                      "index (M3); all row-aligned arrays are split by one splitter (M4); pointer lookups are offset by the "
@@ -79,7 +79,7 @@ _ALL = {
         technique="GCNF decision tables + algebraic laws on tables; dispatch folding; call-site rules",
     ),
     "C05": dict(
-        want=["K3", "A3m", "M4", "M5", "P3", "D9"],
+        want=["K3", "A3m", "M4", "M5", "P3", "D9", "M6", "E3"],
         explanation=("Decides masked-row non-interference: in every kernel with a mask parameter, every store to per-group "
                      "state on a path where the row is not provably selected is an identity (K3, path enumeration with a "
                      "symbolic store); the mask is forwarded at every delegation that has one (A3m); slice masks are applied "
@@ -99,7 +99,7 @@ _ALL = {
         technique="fact-walker dominance over inferred code variables; null-preservation idiom table",
     ),
     "C07": dict(
-        want=["P5", "P6", "S2", "P11", "P2", "D2", "D6b", "K2"],
+        want=["P5", "P6", "S2", "P11", "P2", "D2", "D6b", "K2", "P12"],
         explanation=("Decides that transform indexes code-ordered arrays only: the base of every subscript indexed by the row "
                      "codes carries no sort-permutation taint (P5), has a null slot (P6), is indexed after unification (S2), "
                      "and the transform path restores the input's index/container (P11)."),
@@ -135,7 +135,7 @@ _ALL = {
         technique="fact walker; expression normal-form comparison; decorator-name rule",
     ),
     "C11": dict(
-        want=["P4", "P9"],
+        want=["P4", "P9", "P7b"],
         explanation=("Decides two structural necessary conditions: the sort permutation derived from the labels reaches the "
                      "result and count frames on every non-transform path (P4); key names are assigned on every constructing "
                      "path (P9)."),
@@ -143,7 +143,7 @@ _ALL = {
         technique="path rules over _apply_gb_reduction / __init__",
     ),
     "C12": dict(
-        want=["P1", "T2", "T3", "K5", "P10"],
+        want=["P1", "T2", "T3", "K5", "P10", "K4b", "P12"],
         explanation=("Decides the dtype/exactness clauses: temporal cast<->restore pairing on all paths (P1); selection "
                      "reducers never do arithmetic on values (T2-L4); accumulator dtype table (T3); dtype provenance in "
                      "rolling selection paths (K5); unit-preserving restoration (P10)."),
